@@ -30,7 +30,9 @@ const (
 // ---- monitor ---------------------------------------------------------------------
 
 type c36NameState struct {
-	mu       sync.Mutex
+	mu        sync.Mutex
+	sameNode  bool
+	crossNode bool
 	perNode  map[int]int
 	live     int
 	maxLive  int
@@ -133,6 +135,11 @@ func (a *C36Singleton) PreStart(ctx *Context) error {
 			}
 		}
 		sort.Strings(hs)
+		if len(hs) > 1 {
+			st.crossNode = true
+		} else {
+			st.sameNode = true
+		}
 		st.overlaps = append(st.overlaps, fmt.Sprintf("at clock %d: instance started on n%d while live instances = {%s}", vfcNow(), a.node, strings.Join(hs, ", ")))
 	}
 	st.ev(a.node, fmt.Sprintf("PreStart exit OK live=%d", st.live))
@@ -159,6 +166,13 @@ func (a *C36Singleton) PostStop(*Context) error {
 	st.mu.Unlock()
 	return nil
 }
+
+// C36Filler is an ordinary actor used to keep a node's death watch busy.
+type C36Filler struct{}
+
+func (*C36Filler) PreStart(*Context) error { return nil }
+func (*C36Filler) Receive(*ReceiveContext) {}
+func (*C36Filler) PostStop(*Context) error { return nil }
 
 // ---- rules ----------------------------------------------------------------------------
 
@@ -232,6 +246,9 @@ type c36RT struct {
 	notes   []string
 	barrier chan struct{}
 
+	fillerPrefix string        // names of the round's filler actors
+	fillerDelay  time.Duration // delay of every RemoveActor on a filler (keeps the death watch busy)
+
 	achieved  bool
 	stalled   string
 	flips     atomic.Int64
@@ -301,6 +318,11 @@ func (rt *c36RT) apply(node int, op string, after bool) error {
 // while the round runs
 func c36Before(node int, op, key string) error {
 	rt := c36CurRound.Load()
+	if rt != nil && rt.fillerPrefix != "" && op == "RemoveActor" && strings.HasPrefix(key, rt.fillerPrefix) {
+		rt.delaysHit.Add(1)
+		time.Sleep(rt.fillerDelay)
+		return nil
+	}
 	if rt == nil || (key != rt.name && !(key == "" && op == "Members")) {
 		return nil
 	}
@@ -463,6 +485,21 @@ func (rt *c36RT) until(cond func() bool) bool {
 	return true
 }
 
+// treeCleanNow: no stopped instance of the round's name lingers in the node's actor tree.
+func (rt *c36RT) treeCleanNow(node int) bool {
+	n, ok := rt.cl.Nodes[node].Sys.actors.nodeByName(rt.name)
+	if !ok {
+		return true
+	}
+	p := n.value()
+	return p != nil && p.IsRunning()
+}
+
+// treeClean waits (watchdog) for treeCleanNow.
+func (rt *c36RT) treeClean(node int) bool {
+	return rt.until(func() bool { return rt.treeCleanNow(node) })
+}
+
 func (rt *c36RT) successes(calls ...*c36Call) int {
 	n := 0
 	for _, c := range calls {
@@ -569,16 +606,61 @@ var c36Scenarios = []c36Scenario{
 		rt.achieved = stops >= 1 && starts >= 2
 	}},
 	{"publish-fail", 2, func(rt *c36RT) {
-		// the leader's publication of the singleton record fails once (spawn is rolled back)
+		// the leader's publication of the singleton record fails once (the spawn is rolled back);
+		// once the rolled-back instance is gone from the leader's tree, all nodes spawn again
 		rt.setLeader(rt.A())
 		rt.flips.Store(0)
 		r := rt.rule(rt.A(), "PutActor", false, 1)
 		r.Err = c36ErrRegistry
+		a := rt.spawn(rt.perm[rt.rng.Intn(3)], "")
+		rt.wait(a)
+		if !rt.treeClean(rt.A()) {
+			rt.note("rolled-back instance still in the leader's tree")
+			return
+		}
 		cs := rt.burst(2+rt.rng.Intn(4), "")
 		rt.wait(cs...)
-		d := rt.spawn(rt.B(), "")
-		rt.wait(d)
-		rt.achieved = r.Fired()
+		rt.achieved = r.Fired() && a.Err != nil
+	}},
+	{"publish-fail-racing-respawn", 2, func(rt *c36RT) {
+		// as publish-fail, but the next spawn arrives while the leader's death watch (busy with
+		// other terminations) has not yet cleaned up the rolled-back instance; a third spawn
+		// follows once it has
+		rt.setLeader(rt.A())
+		rt.flips.Store(0)
+		lead := rt.cl.Nodes[rt.A()].Sys
+		rt.fillerPrefix = "c36f-" + rt.name + "-"
+		rt.fillerDelay = 3 * time.Millisecond
+		var fillers []*PID
+		for i := 0; i < 60; i++ {
+			ctx, cancel := context.WithTimeout(context.Background(), 30*time.Second)
+			p, err := lead.Spawn(ctx, fmt.Sprintf("%s%d", rt.fillerPrefix, i), &C36Filler{}, WithLongLived())
+			cancel()
+			if err == nil {
+				fillers = append(fillers, p)
+			}
+		}
+		r := rt.rule(rt.A(), "PutActor", false, 1)
+		r.Err = c36ErrRegistry
+		r.Do = func() {
+			// other actors of the node terminate just before the rollback
+			for _, p := range fillers {
+				ctx, cancel := context.WithTimeout(context.Background(), 30*time.Second)
+				_ = p.Shutdown(ctx)
+				cancel()
+			}
+		}
+		a := rt.spawn(rt.A(), "")
+		rt.wait(a)
+		stillThere := !rt.treeCleanNow(rt.A())
+		b := rt.spawn(rt.A(), "")
+		rt.wait(b)
+		if !rt.treeClean(rt.A()) {
+			rt.note("rolled-back instance still in the leader's tree after the watchdog")
+		}
+		c := rt.spawn(rt.perm[1+rt.rng.Intn(2)], "")
+		rt.wait(c)
+		rt.achieved = r.Fired() && a.Err != nil && stillThere
 	}},
 	{"precheck-fail", 2, func(rt *c36RT) {
 		// the leader's name check fails once
@@ -741,6 +823,7 @@ func c36RunRound(cl *vfcCluster, mon *c36Mon, scen c36Scenario, seed int64) c36O
 	st.mu.Lock()
 	out.MaxLive, out.Starts, out.Stops = st.maxLive, st.starts, st.stops
 	overlaps := append([]string(nil), st.overlaps...)
+	sameOnly := st.sameNode && !st.crossNode
 	st.mu.Unlock()
 	out.Flips, out.Injected, out.GatesHit, out.Delays = rt.flips.Load(), rt.injected.Load(), rt.gatesHit.Load(), rt.delaysHit.Load()
 	ops := cl.Store.OpStrings(name)
@@ -784,7 +867,11 @@ func c36RunRound(cl *vfcCluster, mon *c36Mon, scen c36Scenario, seed int64) c36O
 	}
 
 	if len(overlaps) > 0 {
-		out.Findings = append(out.Findings, c36Finding{Sig: "singleton-overlap:" + scen.Name, Detail: map[string]any{
+		sig := "singleton-overlap:" + scen.Name
+		if sameOnly {
+			sig = "singleton-overlap-same-node:" + scen.Name
+		}
+		out.Findings = append(out.Findings, c36Finding{Sig: sig, Detail: map[string]any{
 			"overlaps": overlaps, "max_live": out.MaxLive, "events": st.eventStrings(), "registry_ops": ops,
 			"calls": out.Calls, "logical_nodes_ABC": rt.perm, "seed": seed, "notes": rt.notes,
 			"membership_reads": c36MemberOps(cl),
@@ -793,13 +880,20 @@ func c36RunRound(cl *vfcCluster, mon *c36Mon, scen c36Scenario, seed int64) c36O
 
 	// clean up (not judged)
 	c36CurRound.Store(nil)
+	liveBefore, kills := st.liveNow(), 0
 	for _, h := range st.holders() {
 		ctx, cancel := context.WithTimeout(context.Background(), 30*time.Second)
-		_ = cl.Nodes[h].Sys.Kill(ctx, name)
+		if err := cl.Nodes[h].Sys.Kill(ctx, name); err == nil {
+			kills++
+		}
 		cancel()
 	}
+	want := liveBefore - kills
+	if want < 0 {
+		want = 0
+	}
 	deadline := time.Now().Add(10 * time.Second)
-	for st.liveNow() > 0 && time.Now().Before(deadline) {
+	for st.liveNow() > want && time.Now().Before(deadline) {
 		time.Sleep(time.Millisecond)
 	}
 	if st.liveNow() > 0 {
